@@ -29,9 +29,9 @@ ROOT = os.path.dirname(os.path.dirname(os.path.abspath(__file__)))
 PROP_IDS = ['C%02d' % i for i in range(1, 21)]
 
 QUICK_SEEDS = {
-    'C01': 12000, 'C02': 12000, 'C03': 12000, 'C04': 12000, 'C05': 12000,
-    'C06': 8000, 'C07': 12000, 'C08': 6000, 'C09': 12000, 'C10': 10000,
-    'C11': 5000, 'C12': 10000, 'C13': 5000, 'C14': 8000,
+    'C01': 60000, 'C02': 60000, 'C03': 60000, 'C04': 60000, 'C05': 60000,
+    'C06': 40000, 'C07': 60000, 'C08': 30000, 'C09': 60000, 'C10': 50000,
+    'C11': 25000, 'C12': 50000, 'C13': 25000, 'C14': 40000,
 }
 CHUNK = 250
 
@@ -228,7 +228,9 @@ def write_replay(prop, entry, minimised, spent, tier):
         "how_to_replay": "./check {} --replay <this file>".format(prop),
     }
     os.makedirs(os.path.join(ROOT, 'replays'), exist_ok=True)
-    name = "{}-{}-{}.json".format(prop, entry["seed"], slug(viol_d["clause"]))
+    name = "{}-{}-{}-{}.json".format(prop, entry["seed"],
+                                     slug(viol_d["clause"]),
+                                     slug(viol_d["site"]))
     path = os.path.join(ROOT, 'replays', name)
     with open(path, 'w') as out:
         json.dump(doc, out, indent=1)
